@@ -31,7 +31,7 @@ ASSUMPTIONS = [
 ]
 TRUSTED = ["stdlib json, copy; PyYAML"]
 EXHAUSTIVE = {"quick": False, "thorough": False}
-THOROUGH_ROUNDS = 8   # thorough tier: this many generator passes with derived PRNG states (vcheck)
+THOROUGH_ROUNDS = 5   # thorough tier: this many generator passes with derived PRNG states (vcheck)
 PRIMS = (dict, list, str, int, float, bool, type(None))
 
 # ------------------------------------------------------------------------------------------------
